@@ -272,9 +272,7 @@ sts_atmost_via_sink(Source *source, Sink *sink, const size_t n)
         return -ENOMEM;
     }
     const size_t m = (n == 0 || rest < n) ? rest : n;
-    return (source->kind == DATA_KIND_CHUNK)
-        ? source->source.chunk(source->driver, buf, m)
-        : source_get_chunk(source, buf, m);
+    return source_get_chunk_atmost(source, buf, m);
 }
 
 static ssize_t
@@ -292,9 +290,7 @@ sts_atmost_via_source(Source *source, Sink *sink, const size_t n)
         return -ENODATA;
     }
     const size_t m = (n == 0 || rest < n) ? rest : n;
-    const ssize_t rc = (source->kind == DATA_KIND_CHUNK)
-        ? source->source.chunk(source->driver, buf, m)
-        : source_get_chunk(source, buf, m);
+    const ssize_t rc = source_get_chunk_atmost(source, buf, m);
     return (rc <= 0) ? rc : sink_put_chunk(sink, buf, rc);
 }
 
@@ -320,19 +316,13 @@ ssize_t
 sts_n(Source *source, Sink *sink, const size_t n)
 {
     size_t rest = n;
-    bool shortcut = false;
     while (rest > 0) {
-        const ssize_t rc = shortcut
-            ? sts_atmost_via_source(source, sink, rest)
-            : sts_atmost(source, sink, rest);
-        if (rc == -ENOMEM && shortcut == false
-            && channel_has_buffer_ext(source, sink))
-        {
-            /* This means that the sink buffer is out of memory. If the source
-             * can provide a buffer in the next iteration, we can go on,
-             * otherwise we cannot. Going on is tried once: Repeating a step
-             * that failed before pulls octets out of the source for ever. */
-            shortcut = true;
+        /* sts_atmost() itself goes on to the source's buffer when the sink's
+         * is exhausted. A step that failed must not be repeated: what it took
+         * from the source is gone, and what the next one takes would reach the
+         * sink in its place. */
+        const ssize_t rc = sts_atmost(source, sink, rest);
+        if (rc == -EINTR || rc == -EAGAIN) {
             continue;
         } else if (rc < 0) {
             return rc;
@@ -347,17 +337,10 @@ ssize_t
 sts_drain(Source *source, Sink *sink)
 {
     ssize_t rc = 0;
-    bool shortcut = false;
 
     for (;;) {
-        rc = shortcut
-            ? sts_atmost_via_source(source, sink, 0u)
-            : sts_atmost(source, sink, 0u);
-        if (rc == -ENOMEM && shortcut == false) {
-            /* This means that the sink buffer is out of memory. If the source
-             * can provide a buffer in the next iteration, we can go on,
-             * otherwise we cannot. Going on is tried once. */
-            shortcut = true;
+        rc = sts_atmost(source, sink, 0u);
+        if (rc == -EINTR || rc == -EAGAIN) {
             continue;
         } else if (rc < 0) {
             break;
@@ -395,7 +378,9 @@ sts_n_aux(Source *source, Sink *sink, ByteBuffer *b, const size_t n)
     while (rest > 0) {
         byte_buffer_rewind(b);
         const ssize_t rc = sts_atmost_aux(source, sink, b, rest);
-        if (rc < 0) {
+        if (rc == -EINTR || rc == -EAGAIN) {
+            continue;
+        } else if (rc < 0) {
             return rc;
         }
         rest -= rc;
@@ -413,10 +398,11 @@ sts_drain_aux(Source *source, Sink *sink, ByteBuffer *b)
     for (;;) {
         byte_buffer_rewind(b);
         rc = sts_atmost_aux(source, sink, b, n);
-        if (rc < 0) {
+        if (rc == -EINTR || rc == -EAGAIN) {
+            continue;
+        } else if (rc < 0) {
             break;
         }
-
     }
 
     return rc;
